@@ -85,9 +85,9 @@ def main(pid):
     class Est:
         pass
 
-    def check_estimator(ratios, flags, labels, classify=None):
+    def check_estimator(ratios, flags, labels, classify=None, inputs=None):
         c = h.reg['mutual_info_estimator_numba']
-        for inp in estimator_inputs(ratios, flags):
+        for inp in (inputs if inputs is not None else estimator_inputs(ratios, flags)):
             env = dict(inp)
             if not all(common.eval_clause(e, env) for _, e in c['requires']):
                 continue
@@ -190,6 +190,27 @@ def main(pid):
             X, Y = inp['X'], inp['Y']
             return 'selfpair_equal_sum' if int(np.sum(X - Y)) == 0 and not np.array_equal(X, Y) else None
         check_estimator([1.0], [False, True], {'selfpair', 'plugin_mi', 'corrected'}, classify=cls)
+
+        def almost_self_pairs():
+            # different vectors that agree on every row the sub-sampler keeps: still NOT a self pair (the test is on whole vectors)
+            for Y0, X in pairs():
+                fv, _ = M.support(X)
+                for r in (0.5, 0.8):
+                    _, _, q = M.sample_spec(X, X, r, fv)
+                    if q == 0:
+                        continue
+                    sampled = set()
+                    for f in fv:
+                        sampled.update(M.where_idx(X, f)[:q])
+                    outside = [i for i in range(len(X)) if i not in sampled]
+                    if not outside:
+                        continue
+                    Y = X.copy()
+                    for i in outside[:max(1, len(outside) // 2)]:
+                        Y[i] = X[i] + 1
+                    for c_ in (False, True):
+                        yield dict(Y=Y, X=X, approximation_factor=float(np.float32(r)), cardinality_correction=c_)
+        check_estimator(None, None, {'selfpair', 'sampled'}, classify=cls, inputs=almost_self_pairs())
         # relabeling invariance on the real estimator (bounded stand-in for the spec-level lemma)
         n_rel = 0
         for Y, X in pairs():
